@@ -337,6 +337,28 @@ func PreSend(ch any, at string) SendTok {
 	return SendTok{}
 }
 
+// DigestFn, when set, maps a value that travels through a channel to a deterministic content digest. The digest of a
+// sent value enters the sender's history BEFORE it parks at the send, and the digest of a received value enters the
+// receiver's history: a result that a goroutine computed from memory it shares with another goroutine (a record it has
+// already passed on, a reused batch slice) then distinguishes states that the operation histories alone would merge.
+// It refines the state key only (never merges more), so it cannot make the search unsound.
+var DigestFn func(v any) uint64
+
+// PreSendV is PreSend for a send whose value is known (every plain send statement).
+func PreSendV(ch any, v any, at string) SendTok {
+	if s := cur; s != nil && !s.aborting && DigestFn != nil {
+		g := s.running
+		g.hist = mixu(mixs(g.hist, "V"), DigestFn(v))
+	}
+	return PreSend(ch, at)
+}
+
+func noteRecvValue(g *G, v any) {
+	if DigestFn != nil {
+		g.hist = mixu(mixs(g.hist, "v"), DigestFn(v))
+	}
+}
+
 func Recv[T any](ch <-chan T, at string) T {
 	v, _ := Recv2(ch, at)
 	return v
@@ -364,10 +386,12 @@ func Recv2[T any](ch <-chan T, at string) (T, bool) {
 	if o.passive {
 		v, ok := <-ch
 		s.passiveWait(g)
+		noteRecvValue(g, any(v))
 		return v, ok
 	}
 	s.noteRecv(g, rv, 0)
 	v, ok := <-ch
+	noteRecvValue(g, any(v))
 	return v, ok
 }
 
